@@ -155,4 +155,18 @@ theorem splitSlash_join (w p : Str) : splitSlash (w ++ 47 :: p) = splitSlash w +
       | nil => exact absurd hsp (splitSlash_ne_nil cs)
       | cons h t => simp
 
+theorem registerAll_ok_iff (wd : List Name) (h : Hierarchy) (ps : List Str) :
+    (∃ h', registerAll wd h ps = .ok h') ↔ ∀ p ∈ ps, ∃ cs, resolveRel wd p = .ok cs := by
+  induction ps generalizing h with
+  | nil => simp [registerAll]
+  | cons p ps ih =>
+    simp only [registerAll, Hierarchy.register, List.mem_cons, forall_eq_or_imp]
+    cases hr : resolveRel wd p with
+    | error e => simp
+    | ok cs =>
+      simp only [Except.ok.injEq, exists_eq', true_and]
+      cases splitLast cs with
+      | none => exact ih _
+      | some il => exact ih _
+
 end BbRe.Lemmas.Outputs
